@@ -48,6 +48,8 @@ const (
 var (
 	sentAddrs     = []string{"10.1.0.1:26379", "10.1.0.2:26379", "10.1.0.3:26379"}
 	sentDataAddrs = []string{"10.2.0.1:6379", "10.2.0.2:6379", "10.2.0.3:6379"}
+	// the master of another master set that the same sentinels monitor (plans with X["foreign"])
+	sentForeignAddr = "10.2.0.9:6379"
 	sentExtraAddr = "10.1.0.9:26379" // announced through +sentinel; no such process exists
 )
 
@@ -367,6 +369,12 @@ func genSentinel(seed uint64, tier, variant string) any {
 	if calm {
 		p.X["final_fault"] = ""
 	}
+	// the sentinels also monitor another master set whose name begins with ours; its failover is announced on the same
+	// channel and must be ignored (its new master is a reachable node that truthfully answers ROLE as master)
+	if !lifetime && r.IntN(3) == 0 {
+		p.X["foreign"] = true
+		p.Ghosts = append(p.Ghosts, GhostSpec{Kind: "foreign-switch", Node: pick(r, sentCurrent, sentCurrent, r.IntN(len(sentAddrs))), MinStep: 5 + r.IntN(120)})
+	}
 	// session settings (C47, sentinel part): the data nodes and the sentinels take different credentials and names, the
 	// database is selected on data nodes only (a sentinel has no SELECT)
 	p.X["auth"] = pick(r, 0, 0, 1, 2, 3, 4)
@@ -606,7 +614,7 @@ func (sr *sentRun) gateOK(g GhostSpec) bool {
 		if len(g.Argv) > 1 && g.Argv[1] == "pub" {
 			return sr.pushGate()
 		}
-	case "event":
+	case "event", "foreign-switch":
 		return sr.pushGate()
 	case "sent-down":
 		return sr.sentFaultGate()
@@ -689,7 +697,7 @@ func (sr *sentRun) applyOp(g GhostSpec) {
 	s := sr.sim()
 	w := s.W
 	atoi := func(x string) int { n, _ := strconv.Atoi(x); return n }
-	if (g.Kind == "event" || g.Kind == "sent-down") && g.Node == sentCurrent {
+	if (g.Kind == "event" || g.Kind == "sent-down" || g.Kind == "foreign-switch") && g.Node == sentCurrent {
 		if g.Node = sr.subscribedSentinel(); g.Node < 0 {
 			g.Node = 0
 		}
@@ -714,6 +722,11 @@ func (sr *sentRun) applyOp(g GhostSpec) {
 				w.Demote(a, sentDataAddrs[g.Node])
 			}
 		}
+	case "foreign-switch":
+		sr.publishAndDeliver(g.Node, func() int {
+			return w.Sentinel.Publish(sentAddrs[g.Node], "+switch-master", sentSet+"-sessions 10.2.0.8 6379 "+hostPort(sentForeignAddr))
+		})
+		sr.sim().Stats["env.foreign-switch-master"]++
 	case "event":
 		ch, role, inst := g.Argv[0], g.Argv[1], atoi(g.Argv[2])
 		addr := sentDataAddrs[inst]
@@ -864,6 +877,9 @@ func execSentinel(t *testing.T, plan any, out *Outcome) {
 			s.W.AddReplica(a, sentDataAddrs[initial])
 		}
 	}
+	if fg, _ := p.X["foreign"].(bool); fg {
+		s.W.AddNode(sentForeignAddr)
+	}
 	sm := fakeredis.NewSentinelModel(s.W)
 	for _, a := range sentAddrs {
 		sm.AddSentinel(a)
@@ -872,7 +888,10 @@ func execSentinel(t *testing.T, plan any, out *Outcome) {
 		sr.setView(i, initial)
 	}
 	if dUser, dPass, sUser, sPass := sentCreds(p); dPass != "" || sPass != "" {
-		for _, a := range sentDataAddrs {
+		for _, a := range append(append([]string(nil), sentDataAddrs...), sentForeignAddr) {
+			if s.W.Nodes[a] == nil {
+				continue
+			}
 			if dPass != "" {
 				u := dUser
 				if u == "" {
@@ -1509,6 +1528,9 @@ func (sr *sentRun) judge() {
 	}
 	if switches > 0 {
 		out.probe("switch-master-delivered")
+	}
+	if s.Stats["env.foreign-switch-master"] > 0 {
+		out.probe("foreign-master-set-switch-announced")
 	}
 	if refused > 0 {
 		out.probe("role-check-refused-node")
